@@ -78,9 +78,11 @@ def run(prop, tier, seed):
         from . import scoped
         nscoped = scoped.run(v, prop)
     nthreadtrace = 0
+    ntracevals = 0
     if prop == 'C17':
-        from . import thr
+        from . import thr, tracevals
         nthreadtrace = thr.traced_calls(v, seed, tier)
+        ntracevals = tracevals.run(v, prop)
     if prop == 'C16':
         from . import thr
         nthreadtrace = thr.traced_calls(v, seed, tier, what='ok')
@@ -122,7 +124,7 @@ def run(prop, tier, seed):
         distinct_model_states_reached_estimate=16 * len(res.states),
         scenarios_cut_at_dont_care=res.cuts, cut_reasons=res.cut_reasons,
         mismatches_owned_by_other_properties=res.foreign,
-        regression_probes_run=nprobe, calls_on_other_threads_checked=nthreadtrace, scoped_form_scene_lines_compared=nscoped, exhaustive=any(k.startswith('exh:') for k in res.by_spec),
+        regression_probes_run=nprobe, calls_on_other_threads_checked=nthreadtrace, scoped_form_scene_lines_compared=nscoped, class_type_value_trace_records_compared=ntracevals, exhaustive=any(k.startswith('exh:') for k in res.by_spec),
         exhaustive_parts={k[4:]: v for k, v in res.by_spec.items() if k.startswith('exh:')},
         random_histories={k[7:]: v for k, v in res.by_spec.items() if k.startswith('random:')},
         exhaustive_note='each listed enumerator was run to completion (every history of its scope, see vlib/exh.py); the random histories are in addition',
